@@ -81,6 +81,9 @@ func stateStores(c *eng.Ctx, fn *ssa.Function) map[ssa.Instruction]int64 {
 
 func runC08(c *eng.Ctx) {
 	p := c.P
+	handshakeBaselineIsTheGroupAck(c)
+	livenessRecheckedAfterTheSuspendMark(c)
+	rewindToTheAckIsAccepted(c)
 	putPublicationOrder(c)
 	ready := constOf(c, "models", "ReplicatorReadyState")
 	failure := constOf(c, "models", "ReplicatorFailureState")
